@@ -259,6 +259,78 @@ pub fn run(ctx: &Ctx) -> i32 {
             }
         }
     }
+    // ---- every history once more as one uninterrupted execution on one thread (state the
+    // implementation keeps outside the schedule value travels along the path only this way)
+    {
+        let pdepth: u32 = if ctx.thorough { 3 } else { 2 };
+        let scheds = schedules(ctx.thorough);
+        let st = starts();
+        let parsed: Vec<Option<Sets>> = scheds.iter().map(|e| match rc::parse(e) { Verdict::Accept(s) => Some(s), _ => None }).collect();
+        let na = 15u64;
+        let per = na.pow(pdepth);
+        let total = scheds.len() as u64 * st.len() as u64 * per;
+        rep.sweep(&format!("E2:path re-execution, cron machine depth {}: {} schedules x {} starts x 15^{} action sequences", pdepth, scheds.len(), st.len(), pdepth), total, "parse, then the whole action sequence in one piece on one thread", |i, acc| {
+            let si = (i / (per * st.len() as u64)) as usize;
+            let sets = match &parsed[si] {
+                Some(s) => s,
+                None => return,
+            };
+            let start = st[(i / per % st.len() as u64) as usize];
+            if rc::next_after(sets, start.div_euclid(60) + EPOCH_MIN).is_none() {
+                return;
+            }
+            let mut real = match CronSchedule::parse(scheds[si]) {
+                Ok(r) => r,
+                Err(_) => return,
+            };
+            let mut k = i % per;
+            let (mut clock, mut last) = (start, None);
+            let mut actions = vec![];
+            for _ in 0..pdepth {
+                let a = (k % na) as u8;
+                k /= na;
+                // the same 15 actions as the machine: 0..9 advance+next, 9/13/17 clone-and-continue, 18..20 nth
+                let a = match a { 9 => 9, 10 => 13, 11 => 17, 12 => 18, 13 => 19, 14 => 20, x => x };
+                if a == 20 && !actions.is_empty() {
+                    return;
+                }
+                actions.push(a);
+                acc.transitions += 1;
+                let (r, l, bad) = if a >= 18 {
+                    step_nth(&real, sets, clock, last, NTH[(a - 18) as usize])
+                } else {
+                    clock += ADVANCES[(a % 9) as usize];
+                    step(&real, sets, clock, last, a >= 9)
+                };
+                if let Some(b) = bad {
+                    acc.violation("CronSchedule::next", &format!("path-of-{}-executed-in-one-piece", actions.len()), json!({"schedule": scheds[si], "start": start, "actions": actions}), "agreement with the reference at every step".into(), b);
+                    return;
+                }
+                real = r;
+                last = l;
+            }
+            acc.states += 1;
+            acc.branch("path-completed");
+        });
+        // ---- the first match from every day of two years (a common and a leap year) for every
+        // single-month and every single-day-of-month schedule
+        let firsts: Vec<String> = (1..=12).map(|m| format!("0 0 * {} *", m)).chain((1..=31).map(|d| format!("30 6 {} * *", d))).collect();
+        let day0 = cal::days_from_civil(2023, 1, 1);
+        let ndays = 731u64;
+        rep.sweep("first match from 10:20:30 of every day of 2023-2024 x {12 single-month, 31 single-day-of-month schedules}", firsts.len() as u64 * ndays, "the skip to the next month / next matching day from every position in the year", |i, acc| {
+            let expr = &firsts[(i / ndays) as usize];
+            let start = (day0 + (i % ndays) as i64 - cal::DAYS_TO_1970) * 86_400 + 10 * 3600 + 20 * 60 + 30;
+            if let (Ok(real), Verdict::Accept(sets)) = (CronSchedule::parse(expr), rc::parse(expr)) {
+                acc.transitions += 1;
+                acc.states += 1;
+                let (_, _, bad) = step(&real, &sets, start, None, false);
+                if let Some(b) = bad {
+                    acc.violation("CronSchedule::next", "first-match-from-a-day-of-the-year", json!({"schedule": expr, "start": start, "actions": [0]}), "agreement with the reference".into(), b);
+                }
+                acc.branch("first-match");
+            }
+        });
+    }
     astrolabe::verif_hooks::set_now(None);
     let name = format!("E2:stateright cron machine depth {} ({} schedules x {} starts)", depth, nsched, nstart);
     rep.extra.insert(name.clone(), json!({"unique_states": unique, "transitions": n_trans, "max_depth": checker.max_depth(), "actions_per_state": 15, "schedules": nsched, "starts": nstart}));
